@@ -130,7 +130,7 @@ def rule_grp(A: Analysis, rep):
     for n in g.nodes:
         if n.kind == "stmt" and isinstance(n.ast, ast.Raise) and n.ast.exc is not None and id(n.ast) in {id(x) for x in ast.walk(lp)}:
             cls = A.exc.exc_class(n.ast.exc)
-            raises[cls.rsplit(".", 1)[1] if cls else "?"] = n
+            raises[cls.rsplit(".", 1)[-1] if cls else "?"] = n
     ok = set(raises) == {"ExperimentGroupInvalidExperimentInstance", "ExperimentGroupDuplicateName"}
     if ok:
         g1 = A.path_guards(g, be, raises["ExperimentGroupInvalidExperimentInstance"], fi)
